@@ -3,6 +3,7 @@
 package main
 
 import (
+	"strconv"
 	"bytes"
 	"encoding/json"
 	"net/url"
@@ -44,6 +45,44 @@ func (r *reader) jv() any {
 		return m
 	}
 	panic("bad jv")
+}
+
+// pagingTag identifies what a remote collection delivered: posts are titled "t<N>"
+func pagingTag(it pub.Tangible) int {
+	switch x := it.(type) {
+	case *pub.Post:
+		name := plainText(x.Name())
+		if strings.HasPrefix(name, "t") {
+			if n, err := strconv.Atoi(name[1:]); err == nil {
+				return n
+			}
+		}
+		return -9
+	case *pub.Failure:
+		if strings.Contains(plainText(x.Name()), "refusing to read the next collection") {
+			return -2
+		}
+		return -1
+	}
+	return -9
+}
+
+// plainText drops SGR sequences
+func plainText(s string) string {
+	var b strings.Builder
+	rs := []rune(s)
+	for i := 0; i < len(rs); i++ {
+		if rs[i] == 0x1b && i+1 < len(rs) && rs[i+1] == '[' {
+			j := i + 2
+			for j < len(rs) && rs[j] != 'm' {
+				j++
+			}
+			i = j
+			continue
+		}
+		b.WriteRune(rs[i])
+	}
+	return b.String()
 }
 
 func splitBody(resp []byte) []byte {
@@ -220,6 +259,43 @@ func init() {
 					}
 				}
 				out = append(out, 0) // no id
+			case 5:
+				// a remote collection: pub.New(url) must be a collection; Harvest(amount, start) repeatedly with the continuation.
+				// result: a string whose runes are (value + 10): per request n, tags (title number of a post, -1 failure,
+				// -2 "refusing" failure, -9 anything else), continuation flag
+				ui := r.next()
+				amounts := r.list()
+				built := pub.New(universe[ui], nil)
+				coll, ok := built.(*pub.Collection)
+				if !ok {
+					out = append(out, 1, int(time.Since(t0)/time.Millisecond))
+					continue
+				}
+				vals := []int{}
+				var cont pub.Container = coll
+				start := uint(0)
+				for _, a := range amounts {
+					if cont == nil {
+						break
+					}
+					var items []pub.Tangible
+					items, cont, start = cont.Harvest(uint(a), start)
+					vals = append(vals, len(items))
+					for _, it := range items {
+						vals = append(vals, pagingTag(it))
+					}
+					if cont != nil {
+						vals = append(vals, 1)
+					} else {
+						vals = append(vals, 0)
+					}
+				}
+				ms := int(time.Since(t0) / time.Millisecond)
+				out = append(out, 0, ms, 3, len(vals))
+				for _, v := range vals {
+					out = append(out, v+10)
+				}
+				out = append(out, 0)
 			case 4:
 				// what the user typed after '@' (bytes): client.ResolveWebfinger
 				bs := r.list()
